@@ -29,6 +29,17 @@ def _load(prop):
     return importlib.import_module('vmc.props.' + prop.lower())
 
 
+def _limit_memory(gigabytes=16):
+    '''Address-space ceiling per worker: a runaway allocation becomes a MemoryError in
+    that worker instead of an out-of-memory kill somewhere in the machine.'''
+    import resource
+    cap = int(float(os.environ.get('VERIF_WORKER_MEM_GB', gigabytes)) * (1 << 30))
+    try:
+        resource.setrlimit(resource.RLIMIT_AS, (cap, cap))
+    except (ValueError, OSError):
+        pass
+
+
 def run_scenario(job):
     '''Worker entry: run one scenario, return a JSON-able dict.'''
     (prop, scen) = job
@@ -120,11 +131,21 @@ def main(argv=None):
     jobs = [(prop, scens[i]) for i in order]
     results = [None] * len(scens)
     if args.workers > 1 and len(jobs) > 1:
+        # a worker that dies (e.g. killed by the kernel) must fail the run, never hang it
+        import concurrent.futures
         ctx = multiprocessing.get_context('fork')
-        with ctx.Pool(min(args.workers, len(jobs)), maxtasksperchild=None) as pool:
-            for (k, out) in enumerate(pool.imap(run_scenario, jobs, chunksize=1)):
-                results[order[k]] = out
+        with concurrent.futures.ProcessPoolExecutor(min(args.workers, len(jobs)), mp_context=ctx,
+                                                    initializer=_limit_memory,
+                                                    initargs=(getattr(mod, 'WORKER_MEM_GB', 16),)) as pool:
+            futs = [pool.submit(run_scenario, job) for job in jobs]
+            for (k, fut) in enumerate(futs):
+                try:
+                    results[order[k]] = fut.result()
+                except Exception as err:
+                    results[order[k]] = dict(name=jobs[k][1].get('name'), kind='error', wall_s=0.0,
+                                             error='worker process lost: %r' % (err,))
     else:
+        _limit_memory(getattr(mod, 'WORKER_MEM_GB', 16))
         for (k, job) in enumerate(jobs):
             results[order[k]] = run_scenario(job)
 
